@@ -257,7 +257,21 @@ def oracle_(case):
 def oracle_engine(case, d):
     spec = case["spec"]
     e = G.build(spec)
+    if case.get("touch"):
+        # a history: the engine has been exported once, then rule weights are changed by attribute (values on the
+        # decimals grid, clearly away from 1), then it is exported again: the text must describe the engine as it is now
+        export(e)
+        for bi, b in enumerate(e.rule_blocks):
+            for ri, r in enumerate(b.rules):
+                r.weight = [0.5, 0.3, 0.7][(bi + ri) % 3] if abs(float(r.weight) - 0.5) > 1e-9 else 0.3
     t1 = export(e)
+    if case.get("touch"):
+        for b in e.rule_blocks:
+            for r in b.rules:
+                want = f"with {fl.Op.str(float(r.weight))}"
+                if not any(line.strip().endswith(want) for line in t1.split("\n") if line.strip().startswith("rule:")):
+                    return False, (f"after changing a rule weight to {float(r.weight)} the exported text does not carry it "
+                                   f"(expected a rule line ending in '{want}')")
     try:
         e2 = fl.FllImporter().from_string(t1)
     except Exception as ex:  # noqa: BLE001
@@ -561,6 +575,8 @@ def engine_cases(ctx):
         spec = G.gen_engine_spec(rng, d, mode=mode, representable=rep, force_terms=force,
                                  size="small" if i % 7 else "large")
         case = {"kind": "engine", "decimals": d, "spec": spec, "representable": rep}
+        if i % 5 == 2:
+            case["touch"] = True
         if rep:
             case["rows"] = G.input_rows(rng, spec, ctx.scale(5, 12))
         yield case
